@@ -1,10 +1,8 @@
 """C19 -- SumGrader accepts exactly the sums equal in value to the author's.
 
 Everything is decided from the shape of the code (normal forms, CFG order, handler contracts):
-* D1  NF + ENUM: `perform_summation` -- the range term `range(int(lower), int(upper + 1), delta)`, the sum over every
-      evaluation, the swap of reversed limits, the replacement of -inf/+inf by -/+ cutoff, SummationError for same-sign
-      infinities, and the parity step: the decision paths of the `even_odd` statement are enumerated over the complete
-      domain even_odd in {0,1,2} x parity(lower) with `lower` symbolic; CFG order swap < checks < parity < range;
+* D1  ENUM over extracted decision paths (E6) with an abstract limit domain (E7): `perform_summation` as a decision
+      tree over symbolic limits; complete product of the limit classes x even_odd in {0,1,2};
 * D2  NF/ORDER/PAIR: `evaluate_sum` -- three kinds of refusals (variable in scope, complex, non-integer finite) raise
       SummationError and dominate the summation; cutoff chosen over the complete Venn domain of {fact, factorial} in
       the used functions; argument roles of the summation call; the summand closure binds the index only through
@@ -29,14 +27,14 @@ IG = 'mitxgraders/formulagrader/integralgrader.py'
 FILES = [IG]
 
 EXPLANATION = (
-    "(D1) perform_summation: the index runs over range(int(lower), int(upper + 1), delta) [NF, the `+ 1` and both int() "
-    "casts included], every evaluation is summed (comprehension+sum or accumulating loop without early exit), reversed "
-    "limits are swapped, lower == -inf -> -cutoff, upper == +inf -> +cutoff, same-sign infinities raise SummationError, and "
-    "over the complete domain even_odd in {0,1,2} x parity x sign class of the (symbolic) lower limit the decision paths give "
-    "delta 1/2/2 and a new lower limit whose affine form (abstract evaluation of + - * / // int() over parity/sign classes) "
-    "is lower + 1 exactly when the parity is the wrong one and lower otherwise; "
-    "a clamp max/min in place of the infinity tests is recognised as truncating finite limits; CFG order: swap before the infinity "
-    "checks and the parity step, infinity replacement before the parity step, parity step before the range; "
+    "(D1) perform_summation is read as a decision tree (nf.decision_paths with locals substituted forward, loops / any() over "
+    "literal tuples unrolled) whose guards and leaves are expressions over the symbolic parameters; they are evaluated in an "
+    "abstract domain -- each limit is -inf, +inf or finite with a parity (and, when the code divides or clamps, a sign / "
+    "beyond-the-cutoff) class, two finite limits are ordered <, = or >, the cutoff has a parity, even_odd in {0,1,2}; values "
+    "are +-inf or affine forms over lower/upper/infty_val (int(), //, %, abs, max, min interpreted on the classes) -- and over "
+    "the complete product of these classes the selected leaf must be SummationError for same-sign infinities, else the sum "
+    "of eval_summand over range(first index of the right parity at or above the smaller limit (-cutoff for -inf), larger "
+    "limit (+cutoff for +inf) + 1, 1 or 2), with no filter and no early exit; "
     "(D2) evaluate_sum: `summation_var in varscope`, complex limits and finite non-integer limits each raise "
     "SummationError on a test that dominates the summation; the cutoff is infty_val_fact exactly on the Venn regions "
     "where fact or factorial is among the used functions; perform_summation receives (closure, limits, "
@@ -45,10 +43,12 @@ EXPLANATION = (
     "(D3) SumGrader.gen_evaluations: the author's evaluate_sum call sits in a try whose handler covers MITxError and "
     "raises ConfigError on every path, the student's call is outside it; every path from the author's call to the "
     "student's call deletes the instructor variables from the scope both calls use, every path from a student's call "
-    "to the next author's call reloads the sample; values are appended and returned in (author, student, used "
-    "functions) roles; (D4) SummationGraderBase.check: structure_and_validate_input (count check -> ConfigError) < "
-    "blank-field loop (MissingInput) < validate_user_dummy_variable (InvalidInput, both tests) < check_math_response "
-    "by CFG dominance; normal forms of validate_input_positions and transform_list_to_dict.")
+    "to the next author's call reloads the sample; values are accumulated and returned in (author, student, used "
+    "functions) roles (aliases followed); (D4) SummationGraderBase.check: structure_and_validate_input (count check -> "
+    "ConfigError) < blank-field test (loop, next() or any() form; MissingInput) < validate_user_dummy_variable "
+    "(InvalidInput, both tests) < check_math_response by CFG dominance; normal forms of validate_input_positions and "
+    "transform_list_to_dict. A construct that is not found is a VIOLATION only when the enclosing function calls nothing "
+    "but reviewed callees and no unreviewed helper is left after inlining; otherwise it is undecided.")
 NOT_DECIDED = ("numeric equality of the two sums within tolerance (compare_evaluations, C04); values produced by the "
                "formula evaluator; IntegralGrader's quadrature (scipy absent; only the shared base class is covered); "
                "Python's range/int/% semantics (trusted).")
@@ -123,357 +123,487 @@ def inf_test(test):
 
 
 # ----------------------------------------------------------------------------- D1
-RANGE_PATTERNS = ["range(int(lower), int(upper + 1), _D)", "range(int(lower), int(upper) + 1, _D)"]
+# perform_summation is read as a decision tree (nf.decision_paths, locals substituted forward) whose guards and leaf
+# are expressions over the *symbolic* parameters lower / upper / infty_val / even_odd.  Those expressions are evaluated
+# in an abstract domain: a limit is -inf, +inf or finite with a parity / sign class; a value is +-inf or an affine form
+# over the parameters.  The domain of the guards is finite and enumerated completely.
+from fractions import Fraction as Fr
+
+VARS3 = ('lower', 'upper', 'infty_val')
 
 
-def d1_summation(ctx, idx):
-    r = ctx.rule('D1.SUM', 'perform_summation: inclusive integer range over the ordered limits, +-inf -> cutoff, parity step, '
-                 'every evaluation summed', floor=12)
-    with r:
-        fi = idx.func(SG + '.perform_summation')
-        fn = fi.node
-        if not fi.is_static or fi.params[:5] != ['eval_summand', 'lower', 'upper', 'even_odd', 'infty_val']:
-            raise AnalysisError('perform_summation: signature changed: %s' % fi.params)
-        # ---- O1 the range term
-        ranges = [c for c in walk_own(fn) if isinstance(c, ast.Call) and isinstance(c.func, ast.Name) and c.func.id == 'range']
-        if len(ranges) != 1:
-            raise AnalysisError('perform_summation: expected one range(...) call, found %d' % len(ranges))
-        rng = ranges[0]
-        binds = {}
-        res = nf.classify(RANGE_PATTERNS, rng, binds)
-        verdict(r, 'perform_summation: index range', res, lib.loc(fi, rng), 'range(int(lower), int(upper + 1), delta)',
-                expected='range(int(lower), int(upper + 1), delta)',
-                why='the sum must run over every integer from the lower to the upper limit inclusive')
-        delta_name = binds['_D'].id if res == nf.MATCH and isinstance(binds.get('_D'), ast.Name) else None
-        if res == nf.MATCH and delta_name is None:
-            raise AnalysisError('perform_summation: the step of the range is not a local variable: %s' % short(rng))
-        # ---- O2 every evaluation is summed
-        _sub(r, _sum_of_all, r, fi, rng)
-        # ---- O3 swap
-        swap_stmt = _sub(r, _swap, r, fi)
-        # ---- O4/O5 infinities
-        inf_stmts = _sub(r, _infinities, r, fi)
-        # ---- O6 parity
-        parity_stmt = _sub(r, _parity, r, fi, delta_name)
-        # ---- O7 order
-        if swap_stmt is not None and parity_stmt is not None and inf_stmts:
-            rng_stmt = lib.enclosing_stmt(rng)
-            problems = []
-            for key, st in inf_stmts.items():
-                if not X.dominates(fi, swap_stmt, st):
-                    problems.append('the limits are ordered only after the test `%s`' % short(st.test))
-                if key in (('lower', -1), ('upper', 1)) and not X.dominates(fi, st, parity_stmt):
-                    problems.append('the parity step runs before `%s` replaces the infinite limit' % short(st.test))
-            if not X.dominates(fi, swap_stmt, parity_stmt):
-                problems.append('the parity step runs before the limits are ordered (it would adjust the wrong limit)')
-            if not X.dominates(fi, parity_stmt, rng_stmt):
-                problems.append('the range is built before the parity step')
-            for st in inf_stmts.values():
-                if not X.dominates(fi, st, rng_stmt):
-                    problems.append('the range is built before `%s`' % short(st.test))
-            r.check(not problems, 'perform_summation: order of the steps', 'swap < infinity handling < parity step < range',
-                    '; '.join(problems[:3]), fi.loc, expected='swap, infinity handling, parity step, range')
-        # single caller
-        callers = [f for f in idx.package_funcs() if lib.calls_named(f.node, 'perform_summation')]
-        r.check([f.qualname for f in callers] == [SG + '.evaluate_sum'], 'perform_summation: callers',
-                'called only by SumGrader.evaluate_sum (after the limit checks)',
-                'perform_summation is called from %s: limits can reach the summation without the checks of evaluate_sum'
-                % [f.qualname for f in callers], fi.loc)
+class Val(object):
+    """+-inf or an affine form sum(coef[v] * v) + const over lower / upper / infty_val."""
+
+    def __init__(self, inf=0, coef=None, const=0):
+        self.inf = inf
+        self.coef = {k: Fr(v) for k, v in (coef or {}).items() if v != 0}
+        self.const = Fr(const)
+
+    def key(self):
+        return (self.inf, tuple(sorted(self.coef.items())), self.const)
+
+    def __eq__(self, other):
+        return isinstance(other, Val) and self.key() == other.key()
+
+    def __hash__(self):
+        return hash(self.key())
+
+    def text(self):
+        if self.inf:
+            return '+inf' if self.inf > 0 else '-inf'
+        parts = []
+        for v in VARS3:
+            c = self.coef.get(v)
+            if c:
+                parts.append(('-' if c == -1 else ('' if c == 1 else '%s*' % c)) + v)
+        if self.const or not parts:
+            parts.append(str(self.const))
+        return ' + '.join(parts).replace('+ -', '- ')
 
 
-def _sub(r, f, *args):
-    """Run one obligation group; an unrecognised shape there does not hide the verdicts of the others."""
-    try:
-        return f(*args)
-    except AnalysisError as e:
-        r.undecided('<%s>' % f.__name__.strip('_'), str(e))
+def var(name):
+    return Val(coef={name: 1})
+
+
+class World(dict):
+    """k (even_odd), L / U (class of each limit), rel (order of two finite limits), Codd (parity of the cutoff)."""
+
+    def cls(self, v):
+        return self['L'] if v == 'lower' else self['U']
+
+    def parity(self, v):
+        if v == 'infty_val':
+            return 1 if self['Codd'] else 0
+        return 1 if self.cls(v)['odd'] else 0
+
+
+class Abstract(object):
+    def __init__(self, world, guards=None):
+        self.w = world
+        self.guards = guards
+
+    def value(self, e):
+        """Abstract value of an expression, or None."""
+        w = self.w
+        if isinstance(e, ast.Name):
+            if e.id in ('lower', 'upper'):
+                c = w.cls(e.id)
+                return Val(inf=c['inf']) if c['inf'] else var(e.id)
+            if e.id == 'infty_val':
+                return var('infty_val')
+            if e.id == 'even_odd':
+                return Val(const=w['k'])
+            return None
+        if isinstance(e, ast.Constant) and isinstance(e.value, (int, float)) and not isinstance(e.value, bool):
+            if e.value in (float('inf'), float('-inf')):
+                return Val(inf=1 if e.value > 0 else -1)
+            if e.value != int(e.value):
+                return None
+            return Val(const=int(e.value))
+        s = inf_sign(e)
+        if s:
+            return Val(inf=s)
+        if isinstance(e, ast.UnaryOp) and isinstance(e.op, (ast.USub, ast.UAdd)):
+            v = self.value(e.operand)
+            if v is None:
+                return None
+            if isinstance(e.op, ast.UAdd):
+                return v
+            return Val(inf=-v.inf) if v.inf else Val(coef={k: -c for k, c in v.coef.items()}, const=-v.const)
+        if isinstance(e, ast.IfExp):
+            t = self.truth(e.test)
+            if t is None:
+                return None
+            return self.value(e.body if t else e.orelse)
+        if isinstance(e, ast.BinOp):
+            a, b = self.value(e.left), self.value(e.right)
+            if a is None or b is None:
+                return None
+            if isinstance(e.op, (ast.Add, ast.Sub)):
+                sgn = 1 if isinstance(e.op, ast.Add) else -1
+                if a.inf or b.inf:
+                    if a.inf and b.inf and a.inf != sgn * b.inf:
+                        return None
+                    return Val(inf=a.inf or sgn * b.inf)
+                coef = dict(a.coef)
+                for k, c in b.coef.items():
+                    coef[k] = coef.get(k, 0) + sgn * c
+                return Val(coef=coef, const=a.const + sgn * b.const)
+            if a.inf and isinstance(e.op, ast.Mod) and not b.inf:
+                v = Val()
+                v.nan = True              # inf % n is nan in Python (no exception)
+                return v
+            if a.inf or b.inf:
+                return None
+            if isinstance(e.op, ast.Mult):
+                if not a.coef:
+                    a, b = b, a
+                if b.coef:
+                    return None
+                return Val(coef={k: c * b.const for k, c in a.coef.items()}, const=a.const * b.const)
+            if isinstance(e.op, ast.Div) and not b.coef and b.const != 0:
+                return Val(coef={k: c / b.const for k, c in a.coef.items()}, const=a.const / b.const)
+            if isinstance(e.op, ast.FloorDiv) and not b.coef and b.const > 0:
+                return self.rounded(Val(coef={k: c / b.const for k, c in a.coef.items()}, const=a.const / b.const), floor=True)
+            if isinstance(e.op, ast.Mod) and b == Val(const=2):
+                p = self.parity_of(a)
+                return None if p is None else Val(const=p)
+            return None
+        if isinstance(e, ast.Call) and isinstance(e.func, ast.Name) and not e.keywords:
+            if e.func.id in ('int', 'float') and len(e.args) == 1:
+                v = self.value(e.args[0])
+                if v is None or v.inf:
+                    return v
+                return self.rounded(v, floor=False) if e.func.id == 'int' else v
+            if e.func.id == 'abs' and len(e.args) == 1:
+                v = self.value(e.args[0])
+                if v is not None and getattr(v, 'nan', False):
+                    return v
+                if v is not None and not v.inf and not v.coef:
+                    return Val(const=abs(v.const))
+                if v is not None and v.inf:
+                    return Val(inf=1)
+                return None
+            if e.func.id in ('max', 'min') and len(e.args) == 2:
+                a, b = self.value(e.args[0]), self.value(e.args[1])
+                c = self.compare(a, b)
+                if c is None:
+                    return None
+                if c == 'nan':
+                    return None
+                big, small = (a, b) if c >= 0 else (b, a)
+                return big if e.func.id == 'max' else small
         return None
 
+    def integral(self, v):
+        return all(c.denominator == 1 for c in v.coef.values()) and v.const.denominator == 1
 
-def _sum_of_all(r, fi, rng):
-    fn = fi.node
-    construct = 'perform_summation: every evaluation in the range is summed'
-    rets = [s for s in fn.body if isinstance(s, ast.Return)]
-    if len(rets) != 1 or rets[0].value is None or fn.body[-1] is not rets[0]:
-        raise AnalysisError('perform_summation: expected the function to end in a single return of the sum')
-    value = lib.inline_locals(rets[0].value, fn)
-    for p in ("sum([eval_summand(_N) for _N in _RANGE])", "sum(eval_summand(_N) for _N in _RANGE)",
-              "sum([eval_summand(_N) for _N in _RANGE], 0)"):
-        b = X.m(p, value)
+    def parity_of(self, v):
+        if v is None or v.inf or not self.integral(v):
+            return None
+        return int(sum(int(c) * self.w.parity(k) for k, c in v.coef.items()) + int(v.const)) % 2
+
+    def rounded(self, v, floor):
+        """int() / floor of an affine form whose value is an integer or a half-integer of known sign."""
+        if self.integral(v) or self._always_integer(v):
+            return v
+        doubled = Val(coef={k: 2 * c for k, c in v.coef.items()}, const=2 * v.const)
+        if not self.integral(doubled) or self.parity_of(doubled) != 1:
+            return None
+        if floor:
+            return Val(coef=v.coef, const=v.const - Fr(1, 2))
+        s = self.sign(v)
+        if s is None:
+            return None
+        return Val(coef=v.coef, const=v.const - Fr(1, 2) * s)
+
+    def _always_integer(self, v):
+        doubled = Val(coef={k: 2 * c for k, c in v.coef.items()}, const=2 * v.const)
+        return self.integral(doubled) and self.parity_of(doubled) == 0 and all(
+            (2 * c).denominator == 1 for c in v.coef.values())
+
+    def sign(self, v):
+        """+1 / -1 if the (non-integer) value is positive / negative for every member of the classes, else None."""
+        if len(v.coef) != 1:
+            return None
+        (name, c), = v.coef.items()
+        if name == 'infty_val':
+            first, direction = (1 if self.w['Codd'] else 2), 1
+        else:
+            cl = self.w.cls(name)
+            first = ((-1 if cl['odd'] else -2) if cl['neg'] else (1 if cl['odd'] else 0))
+            direction = -1 if cl['neg'] else 1
+        at_first = c * first + v.const
+        grows = c * direction                      # moving away from zero changes the value by multiples of this sign
+        if at_first > 0 and grows >= 0:
+            return 1
+        if at_first < 0 and grows <= 0:
+            return -1
+        return None
+
+    def compare(self, a, b):
+        """-1 / 0 / +1 for a < b / a == b / a > b in this world, or None."""
+        if a is None or b is None:
+            return None
+        if getattr(a, 'nan', False) or getattr(b, 'nan', False):
+            return 'nan'
+        if a.inf or b.inf:
+            if a.inf == b.inf:
+                return 0
+            if a.inf:
+                return a.inf
+            return -b.inf
+        coef = dict(a.coef)
+        for k, c in b.coef.items():
+            coef[k] = coef.get(k, 0) - c
+        coef = {k: c for k, c in coef.items() if c != 0}
+        const = a.const - b.const
+        if not coef:
+            return (const > 0) - (const < 0)
+        w = self.w
+        if coef == {'lower': 1, 'upper': -1} or coef == {'lower': -1, 'upper': 1}:
+            rel = {'lt': -1, 'eq': 0, 'gt': 1}[w['rel']] * (1 if coef['lower'] == 1 else -1)
+            # integers: lower - upper is <= -1, 0 or >= 1
+            if rel == 0:
+                return (const > 0) - (const < 0)
+            if rel > 0 and const >= 0:
+                return 1
+            if rel < 0 and const <= 0:
+                return -1
+            if rel > 0 and const > -1:
+                return 1
+            if rel < 0 and const < 1:
+                return -1
+            return None
+        if const == 0 and len(coef) == 2 and 'infty_val' in coef and abs(coef['infty_val']) == 1:
+            (name, c), = [(k, v) for k, v in coef.items() if k != 'infty_val']
+            if name in ('lower', 'upper') and abs(c) == 1:
+                pos = w.cls(name).get('pos', 'within')
+                if c == coef['infty_val']:          # +-(v + C): sign of v - (-C)
+                    s = -1 if pos == 'below' else 1
+                else:                                # +-(v - C)
+                    s = 1 if pos == 'above' else -1
+                return s * (1 if c == 1 else -1)
+        return None
+
+    def truth(self, e):
+        try:
+            return bool(self.guards.compile(nf.canon(e))(self.w))
+        except X.Unrecognised:
+            return None
+
+
+def _summation_guards():
+    OPS = {ast.Lt: lambda c: c < 0, ast.LtE: lambda c: c <= 0, ast.Gt: lambda c: c > 0, ast.GtE: lambda c: c >= 0,
+           ast.Eq: lambda c: c == 0, ast.NotEq: lambda c: c != 0}
+    holder = {}
+
+    def atom(e):
+        if isinstance(e, ast.Compare) and len(e.ops) == 1 and isinstance(e.ops[0], (ast.In, ast.NotIn)) \
+                and isinstance(e.comparators[0], (ast.Tuple, ast.List, ast.Set)) \
+                and all(isinstance(x, ast.Constant) and isinstance(x.value, int) for x in e.comparators[0].elts):
+            members = {x.value for x in e.comparators[0].elts}
+            positive = isinstance(e.ops[0], ast.In)
+            left = e.left
+
+            def run_in(w, left=left, members=members, positive=positive):
+                v = Abstract(w, holder['g']).value(left)
+                if v is None or v.inf or v.coef:
+                    raise X.Unrecognised('membership `%s` not decidable in the abstract domain' % short(e))
+                return (v.const in members) == positive
+            return run_in
+        if isinstance(e, ast.Compare) and len(e.ops) == 1 and type(e.ops[0]) in OPS:
+            f = OPS[type(e.ops[0])]
+            left, right = e.left, e.comparators[0]
+
+            def run(w, left=left, right=right, f=f):
+                ab = Abstract(w, holder['g'])
+                c = ab.compare(ab.value(left), ab.value(right))
+                if c is None:
+                    raise X.Unrecognised('comparison `%s` not decidable in the abstract domain' % short(e))
+                if c == 'nan':
+                    return isinstance(e.ops[0], ast.NotEq)      # every comparison with nan is false, except !=
+                return f(c)
+            return run
+        return None
+    g = X.Guards(atom)
+    holder['g'] = g
+    return g
+
+
+def _classes(need_sign, need_beyond, which):
+    out = [{'inf': -1}, {'inf': 1}]
+    for odd in (False, True):
+        for neg in ((False, True) if need_sign or need_beyond else (False,)):
+            base = {'inf': 0, 'odd': odd, 'neg': neg}
+            out.append(dict(base))
+            if need_beyond:
+                out.append(dict(base, pos='below' if neg else 'above'))
+    return out
+
+
+def _range_of(p, fn_params):
+    """(range call, filter?) reached by the leaf of a path: the sum of eval_summand over a range, or None."""
+    e = p.leaf.expr
+    for ptn in ("sum([eval_summand(_N) for _N in _RANGE])", "sum(eval_summand(_N) for _N in _RANGE)", "sum([eval_summand(_N) for _N in _RANGE], 0)"):
+        b = X.m(ptn, e)
         if b is not None and isinstance(b['_RANGE'], ast.Call) and nf.callee_name(b['_RANGE']) == 'range':
-            r.ok(construct, 'sum of eval_summand(n) for n in the range, no filter', lib.loc(fi, rets[0]))
-            return
-    # a comprehension with a filter, or a slice of the evaluations, is a recognised way of dropping terms
-    comp = [n for n in walk_own(fn) if isinstance(n, (ast.ListComp, ast.GeneratorExp)) and any(x is rng for x in ast.walk(n))]
-    if comp and any(g.ifs for g in comp[0].generators):
-        r.violation(construct, 'the comprehension over the range filters terms (`%s`)' % short(comp[0]), lib.loc(fi, comp[0]))
-        return
-    loop = X.enclosing_loop(rng) if not comp else None
-    loops = [n for n in walk_own(fn) if isinstance(n, ast.For) and n.iter is rng]
-    if loops:
-        lp = loops[0]
-        if not isinstance(lp.target, ast.Name):
-            raise AnalysisError('loop target')
-        acc = [s for s in lp.body if not (isinstance(s, ast.Expr)) and not _is_probe(s)]
-        if len(acc) == 1:
-            b = X.any_match([X.spat("_R = _R + eval_summand(%s)" % lp.target.id), X.spat("_R = eval_summand(%s) + _R" % lp.target.id)], acc[0])
-            if b is not None and isinstance(b['_R'], ast.Name) and X.is_name(rets[0].value, b['_R'].id):
-                exits = lib.loop_has_early_exit(lp)
-                r.check(not exits and not lp.orelse, construct, 'accumulating loop without early exit',
-                        'the accumulating loop can stop early (`%s`): later terms are not summed' % (short(exits[0]) if exits else 'else'),
-                        lib.loc(fi, lp))
-                return
-    r.undecided(construct, 'the returned value `%s` is not recognised as the sum of all evaluations' % short(value), lib.loc(fi, rets[0]))
+            return b['_RANGE'], None
+    if isinstance(e, ast.Call) and nf.callee_name(e) == 'sum' and e.args and isinstance(e.args[0], (ast.ListComp, ast.GeneratorExp)):
+        comp = e.args[0]
+        if len(comp.generators) == 1 and comp.generators[0].ifs and X.m("eval_summand(_N)", comp.elt) is not None:
+            return comp.generators[0].iter, comp.generators[0].ifs[0]
+    # accumulating loop among the effects of the path
+    if isinstance(e, ast.Name):
+        for eff in p.effects:
+            if isinstance(eff, ast.For) and isinstance(eff.iter, ast.Call) and nf.callee_name(eff.iter) == 'range' \
+                    and isinstance(eff.target, ast.Name):
+                body = [s for s in eff.body if not isinstance(s, ast.Expr) and not _is_probe(s)]
+                if len(body) == 1 and X.any_match([X.spat("%s = %s + eval_summand(%s)" % (e.id, e.id, eff.target.id)),
+                                                   X.spat("%s = eval_summand(%s) + %s" % (e.id, eff.target.id, e.id))], body[0]) is not None \
+                        and not lib.loop_has_early_exit(eff) and not eff.orelse:
+                    return eff.iter, None
+    return None
 
 
 def _is_probe(s):
     return isinstance(s, ast.Assign) and len(s.targets) == 1 and isinstance(s.targets[0], ast.Name) and isinstance(s.value, ast.Constant)
 
 
-def _swap(r, fi):
-    fn = fi.node
-    construct = 'perform_summation: reversed limits are swapped'
-    SWAPS = [X.spat("lower, upper = upper, lower"), X.spat("upper, lower = lower, upper")]
-    for st in walk_own(fn):
-        if isinstance(st, ast.Assign) and X.any_match([X.spat("lower, upper = min(lower, upper), max(lower, upper)"),
-                                                       X.spat("lower, upper = min(upper, lower), max(upper, lower)")], st) is not None:
-            r.ok(construct, 'lower, upper = min(...), max(...)', lib.loc(fi, st))
-            return st
-    cands = [s for s in walk_own(fn) if isinstance(s, ast.If) and {'lower', 'upper'} <= X.names_loaded(s.test)
-             and not any(inf_sign(x) for x in ast.walk(s.test))]
-    for st in cands:
-        body = [s for s in st.body if not isinstance(s, ast.Expr) and not _is_probe(s)]
-        if len(body) == 1 and X.any_match(SWAPS, body[0]) is not None and not st.orelse:
-            res = nf.classify(["upper < lower", "upper <= lower"], st.test)
-            verdict(r, construct, res, lib.loc(fi, st), 'if lower > upper: swap', expected='if lower > upper: lower, upper = upper, lower',
-                    why='the swap must happen exactly when the limits are reversed, otherwise ordered limits are reversed into an empty range')
-            return st
-    if cands:
-        r.undecided(construct, 'a comparison of the limits exists but is not a recognised swap: %s' % short(cands[0].test), lib.loc(fi, cands[0]))
-        return None
-    r.violation(construct, 'the limits are never compared or reordered: with the lower limit above the upper one '
-                '`range(int(lower), int(upper + 1))` is empty and the sum is 0', fi.loc,
-                expected='if lower > upper: lower, upper = upper, lower')
-    return None
+def d1_summation(ctx, idx):
+    r = ctx.rule('D1.SUM', 'perform_summation, read as a decision tree over symbolic limits: every integer between the ordered '
+                 'limits inclusive, odd/even only when configured, +-inf -> cutoff, same-sign infinities refused', floor=6)
+    with r:
+        fi0 = idx.func(SG + '.perform_summation')
+        if not fi0.is_static or fi0.params[:5] != ['eval_summand', 'lower', 'upper', 'even_odd', 'infty_val']:
+            raise AnalysisError('perform_summation: signature changed: %s' % fi0.params)
+        fi = X.unrolled(fi0)
+        fn = fi.node
+        paths = nf.decision_paths(fn.body)
+        guards = _summation_guards()
+        compiled = [([guards.compile(g) for g in p.guards], p) for p in paths]
+        need_sign = any(isinstance(n, ast.BinOp) and isinstance(n.op, (ast.Div, ast.FloorDiv)) for n in ast.walk(fn))
+        need_beyond = any(isinstance(n, ast.Call) and isinstance(n.func, ast.Name) and n.func.id in ('max', 'min') for n in ast.walk(fn))
+        names = {
+            'all': 'perform_summation: even_odd=0 sums every integer between the limits, inclusive',
+            'odd': 'perform_summation: even_odd=1 sums the odd integers between the limits',
+            'even': 'perform_summation: even_odd=2 sums the even integers between the limits',
+            'swap': 'perform_summation: reversed limits give the same sum',
+            'inf': 'perform_summation: an infinite limit is replaced by -/+ the cutoff',
+            'infinf': 'perform_summation: same-sign infinite limits raise SummationError',
+            'finite': 'perform_summation: finite limits are used as given (also beyond the cutoff)',
+        }
+        stats = {k: {'n': 0, 'bad': []} for k in names}
+        for L in _classes(need_sign, need_beyond, 'L'):
+            for U in _classes(need_sign, need_beyond, 'U'):
+                rels = ('lt', 'eq', 'gt') if not L['inf'] and not U['inf'] else ('lt',)
+                for rel in rels:
+                    if rel == 'eq' and (L != U):
+                        continue
+                    if not L['inf'] and not U['inf'] and L.get('neg') != U.get('neg') and (need_sign or need_beyond):
+                        if (rel == 'lt') != bool(L.get('neg')) or rel == 'eq':
+                            continue
+                    if not L['inf'] and not U['inf'] and L.get('pos') and U.get('pos') and L['pos'] != U['pos'] and \
+                            (rel == 'lt') != (L['pos'] == 'below'):
+                        continue
+                    for Codd in (False, True):
+                        for k in (0, 1, 2):
+                            w = World(L=L, U=U, rel=rel, Codd=Codd, k=k)
+                            _judge_world(w, compiled, guards, stats, fi)
+        for key, label in names.items():
+            st = stats[key]
+            if st['bad']:
+                text, want, got, p = st['bad'][0]
+                r.violation(label, 'for %s the code %s, the property needs %s (%d of %d cases of the abstract domain differ)'
+                            % (text, got, want, len(st['bad']), st['n']),
+                            lib.loc(fi, p.leaf.stmt) if p is not None and p.leaf.stmt is not None else fi.loc, expected=want, found=got)
+            elif st['n']:
+                r.ok(label, '%d cases of the abstract domain' % st['n'], fi.loc)
+        callers = [f for f in idx.package_funcs() if lib.calls_named(f.node, 'perform_summation')]
+        if [f.qualname for f in callers] != [SG + '.evaluate_sum']:
+            r.undecided('perform_summation: callers', 'called from %s' % [f.qualname for f in callers], fi.loc)
 
 
-def _infinities(r, fi):
-    fn = fi.node
-    found = {}
-    for st in walk_own(fn):
-        if isinstance(st, ast.If):
-            t = inf_test(st.test)
-            if t is not None and t[0] in ('lower', 'upper'):
-                if t in found:
-                    raise AnalysisError('two tests of %s against %sinf' % (t[0], '-' if t[1] < 0 else '+'))
-                found[t] = st
-    spec = [(('lower', -1), 'assign', "lower = -infty_val", 'perform_summation: lower == -inf is replaced by -cutoff',
-             'sums from -infty would start at +cutoff / not be replaced'),
-            (('upper', 1), 'assign', "upper = infty_val", 'perform_summation: upper == +inf is replaced by +cutoff',
-             'sums to +infty would end at -cutoff / not be replaced'),
-            (('upper', -1), 'raise', None, 'perform_summation: a sum from -inf to -inf raises SummationError', ''),
-            (('lower', 1), 'raise', None, 'perform_summation: a sum from +inf to +inf raises SummationError', '')]
-    for key, kind, pattern, construct, why in spec:
-        st = found.get(key)
-        if st is None:
-            var = key[0]
-            if kind == 'assign':
-                others = [a for a in walk_own(fn) if isinstance(a, ast.Assign) and len(a.targets) == 1 and X.is_name(a.targets[0], var)
-                          and X.mentions(a.value, 'infty_val')]
-                clamp = [a for a in others if X.any_match(["max(%s, -infty_val)" % var, "max(-infty_val, %s)" % var, "min(%s, infty_val)" % var,
-                                                           "min(infty_val, %s)" % var], a.value) is not None]
-                if clamp:
-                    r.violation(construct, '`%s` clamps the limit instead of replacing only an infinite one: every finite limit beyond the cutoff is '
-                                'truncated too, so e.g. with infty_val=10 the sums to 10, 11 and 12 are all graded as the same sum'
-                                % short(clamp[0]), lib.loc(fi, clamp[0]), expected="if %s == %sfloat('inf'): %s" % (var, '-' if key[1] < 0 else '', pattern))
-                    continue
-                if others:
-                    r.undecided(construct, 'replacement by the cutoff not recognised: %s' % short(others[0]), lib.loc(fi, others[0]))
-                    continue
-            r.violation(construct, 'no test of `%s == %sfloat(\'inf\')` exists: %s' % (
-                key[0], '-' if key[1] < 0 else '', 'int() of the infinite limit raises OverflowError' if kind == 'assign'
-                else 'the range over two equal infinite limits fails with OverflowError instead of a student-facing error'),
-                fi.loc, expected=pattern or 'raise SummationError')
-            continue
-        body = [s for s in st.body if not isinstance(s, ast.Expr) and not _is_probe(s)]
-        where = lib.loc(fi, st)
-        if st.orelse:
-            raise AnalysisError('else branch on `%s`' % short(st.test))
-        if kind == 'assign':
-            if len(body) != 1 or not isinstance(body[0], ast.Assign):
-                r.violation(construct, 'the branch does not replace the limit: `%s`' % short(body[0] if body else st), where, expected=pattern)
-                continue
-            verdict(r, construct, nf.classify(X.spat(pattern), body[0]), where, pattern, expected=pattern, why=why)
+def _limit_text(name, c):
+    if c['inf']:
+        return '%s = %sinf' % (name, '-' if c['inf'] < 0 else '+')
+    bits = ['odd' if c['odd'] else 'even']
+    if c.get('neg') is not None and ('neg' in c):
+        bits.insert(0, 'negative' if c['neg'] else 'non-negative')
+    if c.get('pos'):
+        bits.append('%s the cutoff range' % c['pos'])
+    return '%s finite (%s)' % (name, ', '.join(bits))
+
+
+def _judge_world(w, compiled, guards, stats, fi):
+    ab = Abstract(w, guards)
+    L, U = w['L'], w['U']
+    lv, uv = ab.value(ast.Name(id='lower', ctx=ast.Load())), ab.value(ast.Name(id='upper', ctx=ast.Load()))
+    c = ab.compare(lv, uv)
+    swapped = c is not None and c != 'nan' and c > 0
+    lo, hi = (uv, lv) if swapped else (lv, uv)
+    k = w['k']
+    if lo.inf > 0 or hi.inf < 0:
+        want = ('raise', 'SummationError')
+        group = 'infinf'
+    else:
+        lo2 = Val(coef={'infty_val': -1}) if lo.inf else lo
+        hi2 = Val(coef={'infty_val': 1}) if hi.inf else hi
+        par = ab.parity_of(lo2)
+        adj = 1 if ((k == 1 and par == 0) or (k == 2 and par == 1)) else 0
+        start = Val(coef=lo2.coef, const=lo2.const + adj)
+        stop = Val(coef=hi2.coef, const=hi2.const + 1)
+        want = ('range', start, stop, 1 if k == 0 else 2)
+        if L.get('pos') or U.get('pos'):
+            group = 'finite'
+        elif lo.inf or hi.inf:
+            group = 'inf'
+        elif swapped:
+            group = 'swap'
         else:
-            ok, classes = X.body_raises(st.body)
-            if not ok and not classes:
-                r.violation(construct, 'the branch `%s` does not raise: two equal infinite limits yield a value' % short(st.test), where,
-                            expected='raise SummationError')
+            group = {0: 'all', 1: 'odd', 2: 'even'}[k]
+    text = '%s, %s%s, even_odd=%d%s' % (_limit_text('lower', L), _limit_text('upper', U),
+                                         (', lower %s upper' % {'lt': '<', 'eq': '=', 'gt': '>'}[w['rel']]) if not L['inf'] and not U['inf'] else '',
+                                         k, (', cutoff %s' % ('odd' if w['Codd'] else 'even')) if (L['inf'] or U['inf']) else '')
+    sel = [p for gs, p in compiled if all(g(w) for g in gs)]
+    if len(sel) != 1:
+        raise AnalysisError('decision paths of perform_summation are not exclusive (%d for one case)' % len(sel))
+    p = sel[0]
+    st = stats[group]
+    st['n'] += 1
+    if p.leaf.kind == 'raise':
+        got = ('raise', nf.exc_class_name(p.leaf.expr) if p.leaf.expr is not None else 're-raise')
+    elif p.leaf.kind == 'fall':
+        got = ('none',)
+    else:
+        rg = _range_of(p, None)
+        if rg is None:
+            if want[0] == 'raise':
+                got = ('value',)
             else:
-                r.check(ok and classes == {'SummationError'}, construct, 'raises SummationError',
-                        'the branch raises %s instead of SummationError' % sorted(classes), where, expected='SummationError')
-    return found
-
-
-def _affine_text(form):
-    a, b = form
-    if a == 1:
-        return 'lower' if b == 0 else 'lower %s %s' % ('+' if b > 0 else '-', abs(b))
-    return '%s*lower %s %s' % (a, '+' if b >= 0 else '-', abs(b))
-
-
-def affine(e, odd, neg):
-    """Abstract value of an integer expression over `lower`, for all integers `lower` of the given parity and sign
-    class, as (a, b) meaning a*lower + b (Fractions); None if the expression leaves the analysable fragment
-    (+, -, * and / by constants, // 2, int() of integers and half-integers of known sign)."""
-    from fractions import Fraction as Fr
-    p = 1 if odd else 0
-    first = (-1 if odd else -2) if neg else p          # the member of the class closest to zero
-
-    def ev(x):
-        if isinstance(x, ast.Name):
-            return (Fr(1), Fr(0)) if x.id == 'lower' else None
-        if isinstance(x, ast.Constant) and isinstance(x.value, (int, float)) and not isinstance(x.value, bool) and x.value == int(x.value):
-            return (Fr(0), Fr(int(x.value)))
-        if isinstance(x, ast.UnaryOp) and isinstance(x.op, ast.USub):
-            v = ev(x.operand)
-            return None if v is None else (-v[0], -v[1])
-        if isinstance(x, ast.BinOp):
-            l, r_ = ev(x.left), ev(x.right)
-            if l is None or r_ is None:
-                return None
-            if isinstance(x.op, ast.Add):
-                return (l[0] + r_[0], l[1] + r_[1])
-            if isinstance(x.op, ast.Sub):
-                return (l[0] - r_[0], l[1] - r_[1])
-            if isinstance(x.op, ast.Mult):
-                if l[0] == 0:
-                    return (r_[0] * l[1], r_[1] * l[1])
-                if r_[0] == 0:
-                    return (l[0] * r_[1], l[1] * r_[1])
-                return None
-            if isinstance(x.op, ast.Div) and r_[0] == 0 and r_[1] != 0:
-                return (l[0] / r_[1], l[1] / r_[1])
-            if isinstance(x.op, ast.FloorDiv) and r_[0] == 0 and r_[1] > 0:
-                return rounding((l[0] / r_[1], l[1] / r_[1]), floor=True)
-            if isinstance(x.op, ast.Mod) and r_ == (Fr(0), Fr(2)) and l == (Fr(1), Fr(0)):
-                return (Fr(0), Fr(p))
-            return None
-        if isinstance(x, ast.Call) and isinstance(x.func, ast.Name) and x.func.id == 'int' and len(x.args) == 1 and not x.keywords:
-            v = ev(x.args[0])
-            return None if v is None else rounding(v, floor=False)
-        if isinstance(x, ast.Call) and isinstance(x.func, ast.Name) and x.func.id == 'abs' and len(x.args) == 1:
-            v = ev(x.args[0])
-            if v is not None and v[0] == 0:
-                return (Fr(0), abs(v[1]))
-            return None
-        return None
-
-    def rounding(v, floor):
-        a, b = v
-        # value = a*lower + b = N/2 with N = 2a*lower + 2b (only halves are handled)
-        A, B = 2 * a, 2 * b
-        if A.denominator != 1 or B.denominator != 1:
-            return None
-        A, B = int(A), int(B)
-        if (A * p + B) % 2 == 0:
-            return v                      # always an integer
-        if floor:
-            return (a, b - Fr(1, 2))
-        # truncation toward zero of a half-integer: need its sign over the whole class
-        n0 = A * first + B               # numerator at the member closest to zero
-        if not neg:
-            if A >= 0 and n0 > 0:
-                return (a, b - Fr(1, 2))
-            if A <= 0 and n0 < 0:
-                return (a, b + Fr(1, 2))
+                raise AnalysisError('the returned value `%s` is not recognised as the sum of eval_summand over a range' % short(p.leaf.expr))
         else:
-            if A >= 0 and n0 < 0:
-                return (a, b + Fr(1, 2))
-            if A <= 0 and n0 > 0:
-                return (a, b - Fr(1, 2))
-        return None
-    out = ev(e)
-    if out is None:
-        return None
-    a, b = out
-    if a.denominator != 1 or b.denominator != 1:
-        return None
-    return (int(a), int(b))
+            rng, flt = rg
+            if flt is not None:
+                got = ('filtered', short(flt))
+            else:
+                args = list(rng.args)
+                if len(args) == 1:
+                    args = [ast.Constant(value=0), args[0]]
+                a0, a1 = ab.value(args[0]), ab.value(args[1])
+                a2 = ab.value(args[2]) if len(args) > 2 else Val(const=1)
+                if a0 is not None and a1 is not None and (a0.inf or a1.inf):
+                    got = ('overflow', short(rng))
+                elif want[0] == 'range' and (a0 is None or a1 is None or a2 is None or a2.coef or a2.inf):
+                    raise AnalysisError('range bounds `%s` not analysable for %s' % (short(rng), text))
+                else:
+                    got = ('range', a0, a1, int(a2.const) if a2 is not None and not a2.coef and not a2.inf else None)
+    if want[0] == 'range' and got[0] == 'range' and w['rel'] == 'eq':
+        # lower == upper: forms over `upper` and over `lower` denote the same number
+        def norm(v):
+            coef = dict(v.coef)
+            if 'upper' in coef:
+                coef['lower'] = coef.get('lower', 0) + coef.pop('upper')
+            return Val(coef=coef, const=v.const)
+        want = ('range', norm(want[1]), norm(want[2]), want[3])
+        got = ('range', norm(got[1]), norm(got[2]), got[3])
+    if got != want:
+        st['bad'].append((text, _outcome_text(want), _outcome_text(got), p))
 
 
-def _parity(r, fi, delta_name):
-    fn = fi.node
-    tops = [s for s in walk_own(fn) if isinstance(s, ast.If) and X.mentions(s.test, 'even_odd')
-            and not any(isinstance(a, ast.If) and X.mentions(a.test, 'even_odd') and s in a.orelse for a in walk_own(fn))]
-    if len(tops) != 1:
-        raise AnalysisError('perform_summation: expected one if-chain on even_odd, found %d' % len(tops))
-    top = tops[0]
-    if delta_name is None:
-        return top
-    paths = nf.decision_paths([top], keep_locals=())
-
-    def atom(e):
-        if isinstance(e, ast.Compare) and len(e.ops) == 1 and isinstance(e.ops[0], (ast.Eq, ast.NotEq)):
-            a, b = e.left, e.comparators[0]
-            for x, y in ((a, b), (b, a)):
-                if X.is_name(x, 'even_odd') and isinstance(y, ast.Constant) and isinstance(y.value, int):
-                    eq = isinstance(e.ops[0], ast.Eq)
-                    return lambda w, v=y.value, eq=eq: (w['even_odd'] == v) == eq
-        return None
-
-    def term(e):
-        if isinstance(e, ast.Constant) and isinstance(e.value, int) and not isinstance(e.value, bool):
-            return lambda w, v=e.value: v
-        if X.m("lower % 2", e) is not None or X.m("abs(lower % 2)", e) is not None:
-            return lambda w: 1 if w['odd'] else 0
-        if X.is_name(e, 'even_odd'):
-            return lambda w: w['even_odd']
-        return None
-    guards = X.Guards(atom, term)
-    names = {0: 'perform_summation: even_odd=0 sums every integer (step 1, lower limit unchanged)',
-             1: 'perform_summation: even_odd=1 steps by 2 from the first odd integer',
-             2: 'perform_summation: even_odd=2 steps by 2 from the first even integer'}
-    for k in (0, 1, 2):
-        bad = None
-        for odd in (False, True):
-            w = {'even_odd': k, 'odd': odd}
-            sel = X.select_paths(paths, guards, w)
-            if len(sel) != 1:
-                raise AnalysisError('parity decision paths are not exclusive')
-            leaf = sel[0].leaf
-            if leaf.kind != 'fall':
-                bad = ('the branch %s' % ('returns' if leaf.kind == 'ret' else 'raises'), 'falls through to the range')
-                break
-            env = leaf.env
-            d = env.get(delta_name)
-            want_delta = 1 if k == 0 else 2
-            got_delta = d.value if isinstance(d, ast.Constant) else (short(d) if d is not None else 'unset')
-            lo = env.get('lower')
-            advance = (k == 1 and not odd) or (k == 2 and odd)
-            want_off = 1 if advance else 0
-            got_lower = None
-            for neg in (False, True):
-                form = (1, 0) if lo is None else affine(lo, odd, neg)
-                if form is None:
-                    raise AnalysisError('new lower limit `%s` is not analysable for %s %s limits' % (
-                        short(lo), 'negative' if neg else 'non-negative', 'odd' if odd else 'even'))
-                if form != (1, want_off):
-                    got_lower = ('%s' % _affine_text(form), 'negative' if neg else 'non-negative')
-                    break
-            if got_delta != want_delta or got_lower is not None:
-                cls = '%s%s' % ((got_lower[1] + ' ') if got_lower else '', 'odd' if odd else 'even')
-                bad = ('for a%s %s lower limit: step %s starting at %s%s' % ('n' if cls[0] in 'aeiou' else '', cls, got_delta,
-                                                                             got_lower[0] if got_lower else _affine_text((1, want_off)),
-                                                                             (' (`%s`)' % short(lo)) if lo is not None and got_lower else ''),
-                       'step %s starting at %s' % (want_delta, _affine_text((1, want_off))))
-                break
-        if bad:
-            r.violation(names[k], 'with even_odd=%d the code gives %s, the property needs %s' % (k, bad[0], bad[1]),
-                        lib.loc(fi, top), expected=bad[1], found=bad[0])
-        else:
-            r.ok(names[k], 'both parities of the lower limit', lib.loc(fi, top))
-    return top
+def _outcome_text(o):
+    if o[0] == 'raise':
+        return 'raise %s' % o[1]
+    if o[0] == 'range':
+        return 'sums k = %s, ..., below %s in steps of %s' % (o[1].text() if o[1] is not None else '?', o[2].text() if o[2] is not None else '?', o[3])
+    if o[0] == 'overflow':
+        return 'builds `%s` from an infinite limit (int() of it raises OverflowError)' % o[1]
+    if o[0] == 'filtered':
+        return 'drops the terms failing `%s`' % o[1]
+    if o[0] == 'value':
+        return 'returns a value'
+    return 'returns None'
 
 
 # ----------------------------------------------------------------------------- D2
@@ -481,8 +611,10 @@ def d2_limits(ctx, idx):
     r = ctx.rule('D2.LIMITS', 'evaluate_sum: refusals (variable in scope, complex, non-integer) raise SummationError before the '
                  'summation; cutoff by factorial use; summand closure binds and releases the index', floor=21)
     with r:
-        fi = idx.func(SG + '.evaluate_sum')
+        fi = X.unrolled(idx.func(SG + '.evaluate_sum'))
         fn = fi.node
+        KNOWN = {'get_limits_and_funcs', 'isinstance', 'abs', 'float', 'int', 'SummationError', 'format', 'evaluator', 'perform_summation'}
+        understood = X.only_calls([s for s in fn.body if not isinstance(s, ast.FunctionDef)], KNOWN)
         if fi.params[:7] != ['self', 'summand_str', 'lower_str', 'upper_str', 'summation_var', 'varscope', 'funcscope']:
             raise AnalysisError('evaluate_sum: signature changed: %s' % fi.params)
         glf = X.find_stmts(fn, "_L, _U, _F = self.get_limits_and_funcs(summand_str, lower_str, upper_str, varscope, funcscope)")
@@ -516,8 +648,9 @@ def d2_limits(ctx, idx):
         construct = 'evaluate_sum: a summation variable already in scope is refused'
         cands = [s for s in ifs if {'summation_var', 'varscope'} <= X.names_loaded(s.test)]
         if not cands:
-            r.violation(construct, 'no test of `summation_var in varscope` exists: a variable with a meaning (a sampled variable, i, j) is '
-                        'silently overwritten and then deleted by the summand closure', fi.loc, expected='if summation_var in varscope: raise SummationError')
+            X.absent(r, construct, 'no test of `summation_var in varscope` exists: a variable with a meaning (a sampled variable, i, j) is '
+                     'silently overwritten and then deleted by the summand closure', fi.loc,
+                     expected='if summation_var in varscope: raise SummationError', understood=understood)
         else:
             st = cands[0]
             res = nf.classify("summation_var in varscope", st.test)
@@ -529,8 +662,8 @@ def d2_limits(ctx, idx):
         cands = [s for s in ifs if any(isinstance(c, ast.Call) and nf.callee_name(c) == 'isinstance' and len(c.args) == 2
                                        and X.is_name(c.args[1], 'complex') for c in ast.walk(s.test))]
         if not cands:
-            r.violation(construct, 'no isinstance(..., complex) test exists: complex limits reach int() and fail with TypeError', fi.loc,
-                        expected='isinstance(lower, complex) or isinstance(upper, complex)')
+            X.absent(r, construct, 'no isinstance(..., complex) test exists: complex limits reach int() and fail with TypeError', fi.loc,
+                     expected='isinstance(lower, complex) or isinstance(upper, complex)', understood=understood)
         else:
             st = cands[0]
             res = nf.classify("isinstance(%s, complex) or isinstance(%s, complex)" % (L, U), st.test)
@@ -542,8 +675,8 @@ def d2_limits(ctx, idx):
             construct = 'evaluate_sum: a finite non-integer %s limit is refused' % label
             cands = [s for s in ifs if X.mentions(s.test, V) and _mentions_integrality(s.test, V)]
             if not cands:
-                r.violation(construct, 'no integrality test of the %s limit exists: int() truncates it silently and a different sum is graded'
-                            % label, fi.loc, expected="abs(%s) != float('inf') and int(%s) != %s" % (label, label, label))
+                X.absent(r, construct, 'no integrality test of the %s limit exists: int() truncates it silently and a different sum is graded'
+                         % label, fi.loc, expected="abs(%s) != float('inf') and int(%s) != %s" % (label, label, label), understood=understood)
                 continue
             st = cands[0]
             pats = ["abs(%s) != float('inf') and int(%s) != %s" % (V, V, V), "abs(%s) != float('inf') and %s %% 1 != 0" % (V, V),
@@ -633,7 +766,7 @@ def _cutoff(r, fi, ps, F):
             paths = nf.decision_paths([stmts[0]])
             value = lambda p: p.leaf.env.get(arg.id) if p.leaf.kind == 'fall' else None
         elif not stmts and len(plain) == 1:
-            paths = nf.decision_paths([_split_ifexp(plain[0])])
+            paths = nf.decision_paths([_split_ifexp(ast.Assign(targets=plain[0].targets, value=lib.inline_locals(plain[0].value, fn)))])
             value = lambda p: p.leaf.env.get(arg.id)
         else:
             raise AnalysisError('evaluate_sum: assignments of the cutoff `%s` not recognised' % arg.id)
@@ -794,6 +927,7 @@ def d3_author(ctx, idx):
         fn = fi.node
         if fi.params[:5] != ['self', 'answer', 'student_input', 'var_samples', 'func_samples']:
             raise AnalysisError('gen_evaluations: signature changed: %s' % fi.params)
+        KNOWN3 = {'evaluate_sum', 'copy', 'update', 'append', 'range', 'ConfigError', 'format', 'str', 'log_eval_info'}
         calls = lib.calls_named(fn, 'evaluate_sum')
         roles = {}
         for c in calls:
@@ -821,8 +955,8 @@ def d3_author(ctx, idx):
         construct = "gen_evaluations: the author's sum is guarded: MITxError -> ConfigError"
         tr = lib.enclosing_try(ac)
         if tr is None:
-            r.violation(construct, "the author's evaluate_sum call is not inside a try: errors in the stored answer reach the student as "
-                        "student-facing errors", lib.loc(fi, ac), expected='except MITxError: raise ConfigError')
+            X.absent(r, construct, "the author's evaluate_sum call is not inside a try: errors in the stored answer reach the student as "
+                     "student-facing errors", lib.loc(fi, ac), expected='except MITxError: raise ConfigError')
         else:
             cover = [h for h in tr.handlers if any(n in ('MITxError', 'Exception', 'BaseException') for n in lib.handler_class_names(h))]
             if not cover:
@@ -849,8 +983,11 @@ def d3_author(ctx, idx):
                 or (isinstance(s, ast.Expr) and isinstance(s.value, ast.Call) and isinstance(s.value.func, ast.Attribute)
                     and s.value.func.attr == 'pop' and X.is_name(s.value.func.value, VS))]
         if not dels:
-            r.violation(construct, 'nothing is ever removed from `%s`: the student\'s summand and limits can use the instructor-only variables' % VS,
-                        lib.loc(fi, sc), expected='for key in var_blacklist: del varlist[key]')
+            X.absent(r, construct, 'nothing is ever removed from `%s`: the student\'s summand and limits can use the instructor-only variables' % VS,
+                     lib.loc(fi, sc), expected='for key in var_blacklist: del varlist[key]',
+                     understood=X.only_calls([fn], KNOWN3) and not any(isinstance(x, ast.Assign) and X.is_name(x.targets[0], VS) and
+                                                                      X.in_subtree(x, X.enclosing_loop(ac) or fn) for x in walk_own(fn)
+                                                                      if isinstance(x, ast.Assign) and len(x.targets) == 1))
         else:
             loop = X.enclosing_loop(dels[0])
             src_ok = False
@@ -861,6 +998,15 @@ def d3_author(ctx, idx):
                     if isinstance(f, ast.For) and lib.is_config(f.iter, 'instructor_vars') and isinstance(f.target, ast.Name):
                         if X.find_stmts(f, "%s.append(%s)" % (bl, f.target.id), own=False):
                             src_ok = True
+                for v in lib.assigned_value(fn, bl):
+                    if isinstance(v, (ast.ListComp, ast.SetComp, ast.GeneratorExp)) and len(v.generators) == 1 \
+                            and lib.is_config(v.generators[0].iter, 'instructor_vars') and isinstance(v.generators[0].target, ast.Name) \
+                            and X.is_name(v.elt, v.generators[0].target.id):
+                        src_ok = True
+                    if isinstance(v, ast.Call) and isinstance(v.func, ast.Name) and v.func.id in ('list', 'set', 'tuple') and len(v.args) == 1 \
+                            and (lib.is_config(v.args[0], 'instructor_vars') or (
+                                isinstance(v.args[0], (ast.GeneratorExp, ast.ListComp)) and lib.is_config(v.args[0].generators[0].iter, 'instructor_vars'))):
+                        src_ok = True
             elif isinstance(loop, ast.For) and lib.is_config(loop.iter, 'instructor_vars'):
                 src_ok = True
             between = X.passes_between(fi, ac, [loop if isinstance(loop, ast.For) and loop is not X.enclosing_loop(ac) else dels[0]], sc)
@@ -878,8 +1024,8 @@ def d3_author(ctx, idx):
         if main is None:
             raise AnalysisError('gen_evaluations: the evaluations are not inside a loop over the samples')
         if not loads:
-            r.violation(construct, '`%s` is never updated with var_samples[i]: the sums are evaluated without the sampled variables' % VS,
-                        lib.loc(fi, main), expected='%s.update(var_samples[i])' % VS)
+            X.absent(r, construct, '`%s` is never updated with var_samples[i]: the sums are evaluated without the sampled variables' % VS,
+                     lib.loc(fi, main), expected='%s.update(var_samples[i])' % VS, understood=X.only_calls([fn], KNOWN3))
         else:
             first = X.dominates(fi, loads, ac)
             again = X.passes_between(fi, sc, loads, ac)
@@ -898,28 +1044,44 @@ def d3_author(ctx, idx):
         if not (a_name and s_name and f_name):
             raise AnalysisError('gen_evaluations: results of the evaluate_sum calls are not bound to names')
         construct = 'gen_evaluations: values are stored and returned as (author values, student values, used functions)'
-        a_app = X.find_stmts(fn, "_LIST.append(%s)" % a_name)
-        s_app = X.find_stmts(fn, "_LIST.append(%s)" % s_name)
+        A_al, S_al, F_al = X.aliases(fn, a_name), X.aliases(fn, s_name), X.aliases(fn, f_name)
         rets = lib.returns_of(fn)
         if len(rets) != 1 or not isinstance(rets[0].value, ast.Tuple) or len(rets[0].value.elts) != 3:
             raise AnalysisError('gen_evaluations: return value is not a 3-tuple')
         e0, e1, e2 = rets[0].value.elts
-        a_lists = {b['_LIST'].id for _, b in a_app if isinstance(b['_LIST'], ast.Name)}
-        s_lists = {b['_LIST'].id for _, b in s_app if isinstance(b['_LIST'], ast.Name)}
-        problems = []
-        if not a_lists:
-            problems.append("the author's value `%s` is never appended to a result list" % a_name)
-        elif not (isinstance(e0, ast.Name) and e0.id in a_lists and e0.id not in s_lists):
-            problems.append("the first returned list `%s` is not the one holding the author's values" % short(e0))
-        if not s_lists:
-            problems.append("the student's value `%s` is never appended to a result list" % s_name)
-        elif not (isinstance(e1, ast.Name) and e1.id in s_lists and e1.id not in a_lists):
-            problems.append("the second returned list `%s` is not the one holding the student's values" % short(e1))
-        if not X.is_name(e2, f_name):
-            problems.append("the third returned value `%s` is not the set of functions used by the student" % short(e2))
-        r.check(not problems, construct, 'append/return roles agree', '; '.join(problems) +
-                ': compare_evaluations would measure the tolerance relative to the wrong side / restrictions apply to the wrong functions',
-                lib.loc(fi, rets[0]))
+        all_app = X.find_stmts(fn, "_LIST.append(_V)")
+
+        def holds(e):
+            """'author' / 'student' / 'both' / None: whose values are appended to the list returned as e."""
+            if not isinstance(e, ast.Name):
+                return None
+            names = X.aliases(fn, e.id)
+            who = set()
+            for st_, b_ in all_app:
+                if isinstance(b_['_LIST'], ast.Name) and b_['_LIST'].id in names:
+                    if isinstance(b_['_V'], ast.Name) and b_['_V'].id in A_al:
+                        who.add('author')
+                    elif isinstance(b_['_V'], ast.Name) and b_['_V'].id in S_al:
+                        who.add('student')
+                    else:
+                        who.add('other')
+            return who
+        h0, h1 = holds(e0), holds(e1)
+        if h0 is None or h1 is None or 'other' in (h0 | h1) or not h0 or not h1:
+            r.undecided(construct, 'the returned lists are not recognised as plain accumulations of the two values', lib.loc(fi, rets[0]))
+        else:
+            problems = []
+            if h0 != {'author'}:
+                problems.append("the first returned list `%s` holds the %s values, not the author's" % (short(e0), '/'.join(sorted(h0))))
+            if h1 != {'student'}:
+                problems.append("the second returned list `%s` holds the %s values, not the student's" % (short(e1), '/'.join(sorted(h1))))
+            if not (isinstance(e2, ast.Name) and e2.id in F_al):
+                problems.append("the third returned value `%s` is not the set of functions used by the student" % short(e2))
+            r.check(not problems, construct, 'append/return roles agree', '; '.join(problems) +
+                    ': compare_evaluations would measure the tolerance relative to the wrong side / restrictions apply to the wrong functions',
+                    lib.loc(fi, rets[0]))
+        a_app = [(st_, b_) for st_, b_ in all_app if isinstance(b_['_V'], ast.Name) and b_['_V'].id in A_al]
+        s_app = [(st_, b_) for st_, b_ in all_app if isinstance(b_['_V'], ast.Name) and b_['_V'].id in S_al]
         for lst_stmt, _ in a_app + s_app:
             if not X.in_subtree(lst_stmt, main):
                 r.violation(construct, '`%s` is outside the loop over the samples: only the last sample is compared' % short(lst_stmt), lib.loc(fi, lst_stmt))
@@ -947,18 +1109,40 @@ def d4_order(ctx, idx):
         # blank loop
         construct = 'check: blank fields raise MissingInput before grading'
         loops = [l for l in walk_own(fn) if isinstance(l, ast.For) and X.mentions(l.iter, SI)]
-        blank = None
+        blank = None        # (anchor statement, element expressions, test on the element, raising If)
         for l in loops:
-            for s in ast.walk(l):
-                if isinstance(s, ast.If) and any(isinstance(x, ast.Raise) for x in ast.walk(s)):
-                    blank = (l, s)
+            for s_ in ast.walk(l):
+                if isinstance(s_, ast.If) and any(isinstance(x, ast.Raise) for x in ast.walk(s_)):
+                    blank = (l, _element_exprs(l, SI), s_.test, s_)
         if blank is None:
-            r.violation(construct, 'no loop over the structured input raises for empty fields: a blank limit or summand reaches the parser and '
-                        'a blank variable name crashes is_valid_variable_name', fi.loc, expected="if structured_input[key] == '': raise MissingInput")
+            for g_owner in [n for n in walk_own(fn) if isinstance(n, (ast.GeneratorExp, ast.ListComp)) and len(n.generators) == 1
+                            and X.mentions(n.generators[0].iter, SI)]:
+                g = g_owner.generators[0]
+                call = parent(g_owner)
+                if not (isinstance(call, ast.Call) and isinstance(call.func, ast.Name) and call.func.id in ('next', 'any')):
+                    continue
+                elem = _element_exprs(g, SI)
+                if call.func.id == 'any' and not g.ifs:
+                    ifs_ = [i for i in walk_own(fn) if isinstance(i, ast.If) and X.in_subtree(call, i.test)
+                            and nf.canon(i.test) is not None and isinstance(nf.canon(i.test), ast.Call)]
+                    if ifs_:
+                        blank = (ifs_[0], elem, g_owner.elt, ifs_[0])
+                elif call.func.id == 'next' and len(g.ifs) == 1 and len(call.args) == 2 and isinstance(call.args[1], ast.Constant) \
+                        and call.args[1].value is None:
+                    st_ = lib.enclosing_stmt(call)
+                    if isinstance(st_, ast.Assign) and len(st_.targets) == 1 and isinstance(st_.targets[0], ast.Name) and st_.value is call:
+                        B = st_.targets[0].id
+                        ifs_ = [i for i in walk_own(fn) if isinstance(i, ast.If) and X.truth_test(i.test, B) > 0]
+                        if ifs_:
+                            blank = (ifs_[0], elem, g.ifs[0], ifs_[0])
+        if blank is None:
+            X.absent(r, construct, 'no loop over the structured input raises for empty fields: a blank limit or summand reaches the parser and '
+                     'a blank variable name crashes is_valid_variable_name', fi.loc, expected="if structured_input[key] == '': raise MissingInput",
+                     understood=X.only_calls([fn], {'isinstance', 'structure_and_validate_input', 'validate_user_dummy_variable',
+                                                    'check_math_response', 'IntegrationError', 'format', 'str'}))
         else:
-            l, s = blank
-            elem = _element_exprs(l, SI)
-            t = nf.canon(s.test)
+            l, elem, test_, s = blank
+            t = nf.canon(test_)
             kind = None
             if isinstance(t, ast.Compare) and len(t.ops) == 1 and isinstance(t.ops[0], (ast.Eq, ast.Is)) and \
                     any(nf.equal(t.left, e) for e in elem) and isinstance(t.comparators[0], ast.Constant):
@@ -969,27 +1153,29 @@ def d4_order(ctx, idx):
                     any(nf.equal(t.left, e) for e in elem) and isinstance(t.comparators[0], ast.Constant) and t.comparators[0].value == '':
                 kind = 'inverted'
             if kind == 'ok':
-                r.ok(construct + ' [test]', short(s.test), lib.loc(fi, s))
+                r.ok(construct + ' [test]', short(test_), lib.loc(fi, s))
             elif kind == 'const':
                 r.violation(construct + ' [test]', "the field is compared with %r instead of '': edX sends blank fields as empty strings, so they are "
-                            "no longer refused" % (t.comparators[0].value,), lib.loc(fi, s), expected="== ''", found=short(s.test))
+                            "no longer refused" % (t.comparators[0].value,), lib.loc(fi, s), expected="== ''", found=short(test_))
             elif kind == 'inverted':
-                r.violation(construct + ' [test]', 'the test is inverted: every filled field raises', lib.loc(fi, s), expected="== ''", found=short(s.test))
+                r.violation(construct + ' [test]', 'the test is inverted: every filled field raises', lib.loc(fi, s), expected="== ''", found=short(test_))
             else:
-                r.undecided(construct + ' [test]', 'blank test not recognised: %s' % short(s.test), lib.loc(fi, s))
+                r.undecided(construct + ' [test]', 'blank test not recognised: %s' % short(test_), lib.loc(fi, s))
             ok, classes = X.body_raises(s.body)
             r.check(ok and classes == {'MissingInput'}, construct + ' [class]', 'raises MissingInput',
                     'blank fields raise %s instead of MissingInput' % (sorted(classes) or 'nothing'), lib.loc(fi, s), expected='MissingInput')
-            exits = [e for e in lib.loop_has_early_exit(l) if not isinstance(e, ast.Raise)]
-            r.check(not exits, construct + ' [every field]', 'the loop visits every field', 'the loop over the fields can stop early (`%s`)' %
+            exits = [e for e in lib.loop_has_early_exit(l) if not isinstance(e, ast.Raise)] if isinstance(l, ast.For) else []
+            r.check(not exits, construct + ' [every field]', 'every field is visited', 'the loop over the fields can stop early (`%s`)' %
                     (short(exits[0]) if exits else ''), lib.loc(fi, l))
             r.check(X.dominates(fi, l, c4), construct + ' [before grading]', 'dominates check_math_response',
                     'check_math_response can run before the blank-field check', lib.loc(fi, l))
         # dummy variable
         construct = 'check: the dummy variable is validated before grading'
         if not c3s:
-            r.violation(construct, 'validate_user_dummy_variable is never called: a summation variable that already has a meaning (pi, a function '
-                        'name) or is ill-formed is accepted', fi.loc)
+            X.absent(r, construct, 'validate_user_dummy_variable is never called: a summation variable that already has a meaning (pi, a function '
+                     'name) or is ill-formed is accepted', fi.loc,
+                     understood=X.only_calls([fn], {'isinstance', 'structure_and_validate_input', 'check_math_response', 'IntegrationError',
+                                                    'MissingInput', 'format', 'str', 'next', 'any'}))
         else:
             c3 = c3s[0]
             argok = X.m("self.validate_user_dummy_variable(%s[self.wording['adjective'] + '_variable'])" % SI, c3) is not None
@@ -1028,8 +1214,9 @@ def _helpers(r, idx):
     ifs = [s for s in walk_own(fn) if isinstance(s, ast.If) and X.mentions(s.test, 'student_input')]
     tcall = lib.calls_named(fn, 'transform_list_to_dict')
     if not ifs:
-        r.violation(construct, 'the number of inputs is never compared with the number of expected fields: a missing box leads to IndexError',
-                    fi.loc, expected='len(used_inputs) != len(student_input)')
+        X.absent(r, construct, 'the number of inputs is never compared with the number of expected fields: a missing box leads to IndexError',
+                 fi.loc, expected='len(used_inputs) != len(student_input)',
+                 understood=X.only_calls([fn], {'len', 'sorted', 'transform_list_to_dict', 'ConfigError', 'format'}))
     else:
         st = ifs[0]
         res = nf.classify("len(_UI) != len(student_input)", st.test)
@@ -1064,7 +1251,8 @@ def _helpers(r, idx):
     taken = [s for s in ifs if any(isinstance(c, ast.Compare) and isinstance(c.ops[0], ast.In) for c in ast.walk(s.test))]
     construct = 'validate_user_dummy_variable: a name that already has a meaning raises InvalidInput'
     if not taken:
-        r.violation(construct, 'no membership test exists: functions and constants can be used as summation variable', fi.loc)
+        X.absent(r, construct, 'no membership test exists: functions and constants can be used as summation variable', fi.loc,
+                 understood=X.only_calls([fi.node], {'is_valid_variable_name', 'InvalidInput', 'format', 'title'}))
     else:
         st = taken[0]
         verdict(r, construct, nf.classify("varname in self.functions or varname in self.random_funcs or varname in self.constants", st.test),
@@ -1075,7 +1263,7 @@ def _helpers(r, idx):
     wf = [s for s in ifs if any(isinstance(c, ast.Call) and nf.callee_name(c) == 'is_valid_variable_name' for c in ast.walk(s.test))]
     construct = 'validate_user_dummy_variable: an ill-formed name raises InvalidInput'
     if not wf:
-        r.violation(construct, 'is_valid_variable_name is never consulted', fi.loc)
+        X.absent(r, construct, 'is_valid_variable_name is never consulted', fi.loc, understood=False)
     else:
         st = wf[0]
         verdict(r, construct, nf.classify("not is_valid_variable_name(varname)", st.test), lib.loc(fi, st), expected='not is_valid_variable_name(varname)')
@@ -1097,7 +1285,7 @@ def _helpers(r, idx):
     construct = 'validate_input_positions: positions must be 1..n without gaps'
     set_based = False
     if not consec:
-        r.violation(construct, 'no test against range(1, n+1) exists: positions with gaps index past the list of inputs', fi.loc)
+        X.absent(r, construct, 'no test against range(1, n+1) exists: positions with gaps index past the list of inputs', fi.loc, understood=False)
     else:
         st = consec[0]
         t = nf.canon(st.test)
@@ -1123,8 +1311,9 @@ def _helpers(r, idx):
     dup = [s for s in ifs if X.mentions(s.test, Ln) and X.mentions(s.test, Sn) and s not in consec]
     if not dup:
         if set_based:
-            r.violation(construct, 'no comparison of the number of positions with the number of distinct positions exists (the set-based gap test '
-                        'cannot see duplicates): two fields read the same input box', fi.loc, expected='len(list) > len(set)')
+            X.absent(r, construct, 'no comparison of the number of positions with the number of distinct positions exists (the set-based gap test '
+                     'cannot see duplicates): two fields read the same input box', fi.loc, expected='len(list) > len(set)',
+                     understood=X.only_calls([fn], {'set', 'len', 'range', 'ConfigError'}))
         else:
             r.undecided(construct, 'duplicate test not found', fi.loc)
     else:
@@ -1208,6 +1397,17 @@ MUTANTS = [
 ]
 
 BENIGN = [
+    Benign('limit-checks-in-a-loop', IG, "        if abs(lower) != float('inf') and int(lower) != lower:\n            raise SummationError('Lower summation limit does not evaluate to an integer.')\n        if abs(upper) != float('inf') and int(upper) != upper:\n            raise SummationError('Upper summation limit does not evaluate to an integer.')\n",
+           "        for label, limit in (('Lower', lower), ('Upper', upper)):\n            if abs(limit) != float('inf') and int(limit) != limit:\n                raise SummationError('{} summation limit does not evaluate to an integer.'.format(label))\n"),
+    Benign('complex-check-with-any', IG, "        if isinstance(lower, complex) or isinstance(upper, complex):\n            raise SummationError(", "        if any(isinstance(limit, complex) for limit in (lower, upper)):\n            raise SummationError("),
+    Benign('cutoff-with-any', IG, "        if 'fact' in used_funcs or 'factorial' in used_funcs:\n            infty_val = self.config['infty_val_fact']\n        else:\n            infty_val = self.config['infty_val']\n",
+           "        has_factorial = any(name in used_funcs for name in ('fact', 'factorial'))\n        infty_val = self.config['infty_val_fact' if has_factorial else 'infty_val']\n"),
+    Benign('blank-check-with-next', IG, "        for key in structured_input:\n            if structured_input[key] == '':\n                msg = \"Please enter a value for {key}, it cannot be empty.\"\n                raise MissingInput(msg.format(key=key))\n",
+           "        blank_key = next((key for key in structured_input if structured_input[key] == ''), None)\n        if blank_key is not None:\n            raise MissingInput('Please enter a value for {}, it cannot be empty.'.format(blank_key))\n"),
+    Benign('blacklist-as-comprehension', IG, "        var_blacklist = []\n        for var in self.config['instructor_vars']:\n            if var in var_samples[0]:\n                var_blacklist.append(var)\n\n        for i in range(self.config['samples']):\n            # Update the functions and variables listings with this sample\n            funclist.update(func_samples[i])\n            varlist.update(var_samples[i])\n\n            # Evaluate sums.",
+           "        var_blacklist = [var for var in self.config['instructor_vars'] if var in var_samples[0]]\n\n        for i in range(self.config['samples']):\n            # Update the functions and variables listings with this sample\n            funclist.update(func_samples[i])\n            varlist.update(var_samples[i])\n\n            # Evaluate sums."),
+    Benign('parity-branches-merged', IG, "        if even_odd == 1:\n            # Odd numbers only\n            delta = 2\n            if abs(lower % 2) != 1:\n                lower += 1\n        elif even_odd == 2:\n            # Even numbers only\n            delta = 2\n            if abs(lower % 2) != 0:\n                lower += 1\n        else:\n            delta = 1\n",
+           "        if even_odd in (1, 2):\n            delta = 2\n            wanted = 1 if even_odd == 1 else 0\n            if abs(lower % 2) != wanted:\n                lower += 1\n        else:\n            delta = 1\n"),
     Benign('limits-sorted-with-min-max', IG, "        if lower > upper:\n            lower, upper = upper, lower\n",
            "        lower, upper = min(lower, upper), max(lower, upper)\n"),
     Benign('parity-without-abs', IG, "            if abs(lower % 2) != 1:", "            if lower % 2 != 1:"),
